@@ -137,7 +137,7 @@ theorem restart_after_failure (c : Cfg) (items : List Item) (orc : List Bool) (h
 /-- "inputs the processor cannot accept … are reported as skipped without being sent": a refused input
 changes nothing (no write, no read, no restart) and yields a response marked skipped, with its input. -/
 theorem skipped_not_sent (c : Cfg) (i : Nat) (it : Item) (s : St) (h : validate c.front it.text = none) :
-    interact c i it s = (s, Except.ok { input := it.text, skipped := true, run := curRun s }) := by
+    interact c i it s = (s, Except.ok (skipResp it.text (curRun s))) := by
   simp [interact, h]
 
 /-- … and in a whole session a response is marked skipped exactly when validation refused the input -/
@@ -266,7 +266,7 @@ obligation and then searches for a failing input.  34 conjuncts: the four classi
 * `c19ResultLinesConsts`, `c19ReadRunInfoConsts`, `c19TerminiPatterns`: `readLines` (incl. the `\n` test behind
   `Line.nl`; `partial` defaults to `False`, see `c19InitDefaults`), `Line.runNote`, `Line.hits`, `applyNotes`, the
   `Terminus` classification;
-* `c19SendConsts`: `wire` (one line per input); `c19InteractConsts`: the skipped response of `interact`
+* `c19SendConsts`: `wire` / `isBreak` / `oneLine` (the class `[\r\n]+`, replaced by one blank; one line per input); `c19InteractConsts`: the skipped response of `interact`
   (refusal note, `SKIP: `), `Resp.input`; `c19ProcessItemConsts`: oracle clauses on `keys`/`task`;
 * `c19ValidateNames`, `c19PossibleMrsConsts`: `validate`, `strip`, `pmScan`, `possibleMrs` (brackets `[` `]`);
 * `c19MakeResponseConsts`: `Cls`, `baseResp` (prefixes and their lengths 6/9/7, the keys they feed);
@@ -308,7 +308,7 @@ theorem c19_pins :
       ["NOTE: tsdb run:", "15", ":application", ":"]
     ∧
     c19SendConsts =
-      ["\n"]
+      ["[\\r\\n]+", " ", "\n"]
     ∧
     c19TsdbReceiveConsts =
       ["True", "(partial)", " "]
